@@ -40,6 +40,7 @@ structure Lifecycle where
   starWritesSlot0 : Bool            -- router.go Route.match: the catch-all branch writes params[0] on every path
   getMatchWritesBeforeRead : Bool   -- path.go getMatch: every use of params follows the unconditional params[paramsIterator] = … of the same iteration
   paramsReadsRouteSlots : Bool      -- ctx.go Params indexes c.values only with the loop variable of `range route.Params`
+  sendFileStoresOwnConfig : Bool    -- ctx.go SendFile: lookup through compareConfig(cfg); the entry built on a miss is keyed by cfg
   deriving DecidableEq, Repr, Inhabited
 
 end C05
